@@ -198,14 +198,15 @@ Definition bs_step (A P : vec -> vec) (left : bool) (eps : S) (st : bs_st) : opt
       Some (mkBsSt x (mkBsWs (bs_r w) p v s (bs_t w) (bs_rh w) T) rho1 rho2 alpha (b_omega st) res false (SS (b_it st)))
   end.
 
-(* for(first = true; res > eps && iter < maxiter; ++iter) *)
-Fixpoint bs_loop (A P : vec -> vec) (left : bool) (eps : S) (fuel : nat) (st : bs_st) : option bs_st :=
+(* for(first = true; (res > eps || (first && check_after)) && iter < maxiter; ++iter)
+   (bicgstab.hpp after fix 5724e11: res always starts as ||r0||; check_after forces the first pass) *)
+Fixpoint bs_loop (A P : vec -> vec) (left ca : bool) (eps : S) (fuel : nat) (st : bs_st) : option bs_st :=
   match fuel with
   | O => Some st
-  | SS k => if sltb eps (b_res st) then
+  | SS k => if sltb eps (b_res st) || (b_first st && ca) then
               match bs_step A P left eps st with
               | None => None
-              | Some st' => bs_loop A P left eps k st'
+              | Some st' => bs_loop A P left ca eps k st'
               end
             else Some st
   end.
@@ -214,7 +215,7 @@ Definition bs_init (A P : vec -> vec) (prm : kprm) (nr : S) (f x0 : vec) (junk :
   let r := if p_left prm then P (k_residual f (A x0)) else k_residual f (A x0) in
   let rh := r in                                                   (* backend::copy(r, rh) *)
   let eps := smax (nr * p_tol prm) (p_abstol prm) in
-  let res := if p_ca prm then sofQ (2 # 1)%Q * eps else norm_a r in
+  let res := norm_a r in
   (eps, mkBsSt x0 (mkBsWs r (bs_p junk) (bs_v junk) (bs_s junk) (bs_t junk) rh (bs_T junk))
                s0 s0 s0 s0 res true 0).
 
@@ -223,7 +224,7 @@ Definition bicgstab (A P : vec -> vec) (prm : kprm) (f x0 : vec) (junk : bs_ws) 
   | Trivial nr => (k_trivial nr x0, junk)
   | Go nr =>
     let '(eps, st0) := bs_init A P prm nr f x0 junk in
-    match bs_loop A P (p_left prm) eps (p_maxiter prm) st0 with
+    match bs_loop A P (p_left prm) (p_ca prm) eps (p_maxiter prm) st0 with
     | None => (KExc, junk)
     | Some st => (KOk (mkRes (b_it st) (b_res st / nr) (b_x st) false), b_ws st)
     end
